@@ -31,27 +31,16 @@ theorem dropPrefixCI_same_len (w l rest : Txt) (hlen : l.length = w.length) :
 theorem better_same {α : Type} (x : α) (r : Txt) : (some (x, r) <^> some (x, r)) = some (x, r) := by
   simp [better]
 
-/-- `^` over caseless literals of one length: the one that equals the lower-cased text -/
-theorem clitOr_match (ls : List Txt) (g w rest l : Txt) (c : Nat) (w' : Txt) (hw : w = c :: w')
-    (hc : isWs c = false) (hg : Blank g) (hl : lower w = l) (hmem : l ∈ ls)
-    (hlen : ∀ l' ∈ ls, l'.length = w.length) :
-    clitOr true ls (g ++ (w ++ rest)) = some (l, rest) := by
-  have hone : ∀ l' ∈ ls, (match clit true l' (g ++ (w ++ rest)) with | some r => some (l', r) | none => none)
-      = if l' = l then some (l, rest) else none := by
-    intro l' hl'
-    have : clit true l' (g ++ (w ++ rest)) = dropPrefixCI (w ++ rest) l' := by
-      simp only [clit, sk_true, skipWs_blank_append g _ hg]
-      rw [hw, List.cons_append, skipWs_cons c _ hc]
-    rw [this, dropPrefixCI_same_len w l' rest (hlen l' hl'), hl]
-    by_cases h : l = l'
-    · subst h; simp
-    · have h' : ¬ l' = l := fun e => h e.symm
-      simp [h, h']
+/-- `^` over caseless literals when exactly the literal `l` matches -/
+theorem clitOr_pointwise (ls : List Txt) (s l rest : Txt) (hmem : l ∈ ls)
+    (hone : ∀ l' ∈ ls, (match clit true l' s with | some r => some (l', r) | none => none)
+      = if l' = l then some (l, rest) else none) :
+    clitOr true ls s = some (l, rest) := by
   unfold clitOr
   -- invariant of the fold: nothing yet, or the match
   have key : ∀ (ls' : List Txt) (acc : Res Txt), (∀ l' ∈ ls', l' ∈ ls) →
       (acc = none ∨ acc = some (l, rest)) →
-      let out := ls'.foldl (fun acc l => acc <^> (match clit true l (g ++ (w ++ rest)) with
+      let out := ls'.foldl (fun acc l => acc <^> (match clit true l s with
         | some r => some (l, r) | none => none)) acc
       (out = none ∨ out = some (l, rest)) ∧ ((acc = some (l, rest) ∨ l ∈ ls') → out = some (l, rest)) := by
     intro ls'
@@ -80,6 +69,22 @@ theorem clitOr_match (ls : List Txt) (g w rest l : Txt) (c : Nat) (w' : Txt) (hw
         · left; rcases hacc with h' | h' <;> simp [h', h.symm, better_same]
         · right; exact h
   exact (key ls none (fun _ h => h) (Or.inl rfl)).2 (Or.inr hmem)
+
+/-- `^` over caseless literals of one length: the one that equals the lower-cased text -/
+theorem clitOr_match (ls : List Txt) (g w rest l : Txt) (c : Nat) (w' : Txt) (hw : w = c :: w')
+    (hc : isWs c = false) (hg : Blank g) (hl : lower w = l) (hmem : l ∈ ls)
+    (hlen : ∀ l' ∈ ls, l'.length = w.length) :
+    clitOr true ls (g ++ (w ++ rest)) = some (l, rest) := by
+  apply clitOr_pointwise ls _ l rest hmem
+  intro l' hl'
+  have : clit true l' (g ++ (w ++ rest)) = dropPrefixCI (w ++ rest) l' := by
+    simp only [clit, sk_true, skipWs_blank_append g _ hg]
+    rw [hw, List.cons_append, skipWs_cons c _ hc]
+  rw [this, dropPrefixCI_same_len w l' rest (hlen l' hl'), hl]
+  by_cases h : l = l'
+  · subst h; simp
+  · have h' : ¬ l' = l := fun e => h e.symm
+    simp [h, h']
 
 /-- a caseless literal longer than the text whose next character is a letter does not match when
     the text is followed by a gap, a comma, a comment or the end -/
